@@ -22,7 +22,7 @@ func init() {
 		ID: "C11",
 		Rule: "cases: gteq (pairing values e(aG1,bG2) vs e(cG1,dG2), equal iff ab=cd), <g>mul/add/sub/neg/eq (elements from scalars {0,1,2,r-1,r,r+1,(r±1)/2,2^256-1,random}, sums incl. a+b≡0 and a=b), scenc; " +
 			"g1dec/g2dec/gtdec/scdec on byte strings mutated around valid encodings (every length 0..2·size, single-bit flips, coordinate swaps, x+kp, (p,0)-style identities, negation, off-curve, on-twist-outside-subgroup, tags, random); " +
-			"<g>into (decode into a used receiver), <g>strm (MarshalTo→UnmarshalFrom with trailing data). non-trivial = every case except the unmodified encoding of the identity/generator; distinct = distinct case line",
+			"<g>into (decode into a used receiver), seq (one receiver through prior states {fresh, Null, Base, Mul, successful decode, failed decode} then every special encoding by UnmarshalBinary and UnmarshalFrom; sequences [P, identity, Q]), <g>strm (MarshalTo→UnmarshalFrom with trailing data). non-trivial = every case except the unmodified encoding of the identity/generator; distinct = distinct case line",
 		Gen:  gen,
 		Exec: exec,
 	})
@@ -423,6 +423,59 @@ func exec(line string) (res h.Result) {
 			res.Oracle = fmt.Sprintf("%s-equal-vs-bytes: Equal=%v, encodings equal=%v", g, eq, same)
 		}
 		res.Class = fmt.Sprintf("%s-%d", op, b2i(want))
+	case op == "seq":
+		// seq <g1|g2|gt> <step,step,...>: ONE receiver object taken through a sequence of states.
+		// steps: n = Null(), b = Base(), m<k> = Mul(k, nil), d<hex> = UnmarshalBinary, f<hex> = UnmarshalFrom.
+		// Every decode must answer as a decode of the same bytes into a fresh receiver would.
+		g := w[1]
+		pt := group(g).Point()
+		var outs []string
+		for i, st := range strings.Split(w[2], ",") {
+			switch st[0] {
+			case 'n':
+				pt.Null()
+			case 'b':
+				pt.Base()
+			case 'm':
+				pt.Mul(scalar(h.BigDec(st[1:])), nil)
+			case 'd', 'f':
+				b := h.UnHex(st[1:])
+				var kind string
+				var enc []byte
+				n := len(b)
+				if st[0] == 'd' {
+					kind, enc = decodeInto(pt, b)
+				} else {
+					var err error
+					n, err = pt.UnmarshalFrom(bytes.NewReader(b))
+					if err != nil {
+						kind = errKind(err)
+					} else {
+						kind = "ok"
+						enc, _ = pt.MarshalBinary()
+					}
+				}
+				if st[0] == 'd' {
+					outs = append(outs, show(kind, enc))
+				} else {
+					outs = append(outs, fmt.Sprintf("n=%d %s", n, show(kind, enc)))
+				}
+				if res.Oracle == "" && (st[0] == 'd' || (kind == "ok" && n <= len(b))) {
+					in := b
+					if st[0] == 'f' {
+						in = b[:n]
+					}
+					ref, size := refFor(g, in)
+					if o := judge(g, size, in, kind, enc, ref); o != "" {
+						res.Oracle = strings.Replace(o, g+"-", g+"-reused-receiver-", 1) + fmt.Sprintf(" (step %d of %s)", i, h.OneLine(w[2])[:min(len(w[2]), 80)])
+					}
+				}
+			default:
+				panic("bad step " + st)
+			}
+		}
+		res.Impl = strings.Join(outs, ";")
+		res.Class = "seq-" + g
 	case op == "gteq":
 		// e(aG1, bG2) and e(cG1, dG2): equal elements iff ab ≡ cd (mod r); two different computations
 		a, b, c, d := h.BigDec(w[1]), h.BigDec(w[2]), h.BigDec(w[3]), h.BigDec(w[4])
